@@ -51,6 +51,21 @@ def run(repo, res):
                   % (r['cls'], r['a'], r['cls'], r['b'], r['b'], r['a']),
                   sample='%s: definitions of %s reach %s' % (r['cls'], r['a'], r['b']))
     res.count('block_pairs', n, floor=100)
+    from .. import resolve_model as _M
+    lrecs, lq = _M.lookup_reach_records(repo)
+    seen = set()
+    for r in lrecs:
+        bad = r['struct_may'] and not r['sem_may']
+        k = (R.method_name(repo, r['cls']), r['a'], r['b'], bad)
+        if k in seen:
+            continue
+        seen.add(k)
+        res.check('C02-R1', '%s %s -> %s lookup' % k[:3], not bad, r['line'][0], r['line'][1],
+                  'on %s shape `%s` a definition made in %s can be live at %s and the region graph says so, yet supp\'s own lookup '
+                  '(names_at interpreted on the graph rebuilt from its Flow objects, in the state the extractor leaves them) does not '
+                  'associate the read with it' % (r['cls'], r['variant'], r['a'], r['b']),
+                  sample='%s: the lookup at %s finds the definitions of %s' % (r['cls'], r['b'], r['a']))
+    res.count('lookup_reach_queries', lq, floor=300)
     # ---- lookup order: the later statement of a block is consulted before the earlier one ----------------------
     nsh = 0
     for (cls, blk, reader), r in sorted(R.shadow_records(repo).items()):
